@@ -25,6 +25,8 @@ type SpecEnv struct {
 	calleeFn    *ssa.Function
 	depth       int
 	inQuant     bool
+	triggers    []Expr
+	noRangeGuards bool // axioms over uninterpreted spec functions quantify over mathematical integers
 }
 
 func (g *Gen) specEnv(st, old *State) *SpecEnv {
@@ -159,11 +161,19 @@ func (e *SpecEnv) eval(x Expr) Val {
 			binders = append(binders, fmt.Sprintf("(%s %s)", name, s.SMT()))
 			v := Val{T: name, S: s, G: gt}
 			c.vars[qv.Name] = v
-			if w := g.wfFact(v, nil); w != "true" && s.K == KInt {
+			if w := g.wfFact(v, nil); w != "true" && s.K == KInt && !e.noRangeGuards {
 				guards = append(guards, w)
 			}
 		}
 		body := c.evalBool(n.Body)
+		if len(e.triggers) > 0 && n.Forall {
+			var ts []string
+			for _, t := range e.triggers {
+				ts = append(ts, c.eval(t).T)
+			}
+			body = sImp(sAnd(guards...), body)
+			return Val{T: fmt.Sprintf("(forall (%s) (! %s :pattern (%s)))", strings.Join(binders, " "), body, strings.Join(ts, " ")), S: sBool}
+		}
 		q := "exists"
 		if n.Forall {
 			q = "forall"
